@@ -2137,6 +2137,9 @@ func (d *Document) parseBodySubElement(decoder *xml.Decoder, startElement xml.St
 	case "sectPr":
 		// 解析节属性
 		return d.parseSectionProperties(decoder, startElement)
+	case "sdt", "sdtContent":
+		// 块级内容控件：不跳过，继续解析其中的段落和表格，避免丢失其中的文本
+		return nil, nil
 	default:
 		// 跳过未知元素
 		Debugf("跳过未知元素: %s", startElement.Name.Local)
